@@ -204,7 +204,12 @@ fn huge_contexts<S: PS>(ctx: &Ctx, acc: &mut Acc, pk_b: &[u8], sk_b: &[u8]) {
     let (Ok(Ok(sk)), Ok(Ok(pk))) = (guarded(|| S::sk_from(sk_b)), guarded(|| S::pk_from(pk_b))) else { return };
     let m = [0u8; 24];
     let lens: [usize; 12] = [1 << 24, (1 << 24) + 7, 1 << 31, (1 << 31) + 100, (1 << 32) - 1, 1 << 32, (1 << 32) + 1, (1 << 32) + 100, (1 << 32) + 255, (1 << 32) + 256, (1 << 32) + 511, (1 << 32) + 512];
+    let v0 = acc.violations.len();
     for &n in &lens {
+        // one violation is enough: on a tree that lets huge contexts through every further probe hashes gigabytes
+        if acc.violations.len() > v0 {
+            break;
+        }
         let cx = z.get(n);
         for mode in MODES {
             acc.eval();
@@ -227,6 +232,9 @@ fn huge_contexts<S: PS>(ctx: &Ctx, acc: &mut Acc, pk_b: &[u8], sk_b: &[u8]) {
     // replay of a short-context signature with a 2^32-byte longer context (pure mode): the honest
     // encoding of (ctx = 0^r, M = 0^(2^32) || 0^24) equals the wrapped-length encoding of
     // (ctx = 0^(2^32 + r), M = 0^24). One set per run in quick (4 GiB are hashed once), all in thorough.
+    if acc.violations.len() > v0 {
+        return;
+    }
     if ctx.thorough() || !ctx.checked_build() && (ctx.seed % 3) as usize == [44u32, 65, 87].iter().position(|&s| s == p.set).unwrap_or(0) {
         for rr in [0usize, 255] {
             let m_long = z.get((1usize << 32) + 24);
